@@ -124,6 +124,7 @@ def run(ctx):
             if e.kind == 'call' and e.ftext == 'out.show':
                 n4 += 1
                 times = re.findall(r"format\(([^()]*)\)", dtext(e.args[0]) if e.args else '')
+                times = [re.sub(r", '[^']*'$", '', t_) for t_ in times]        # format(x, '7.4f') is '{:7.4f}'.format(x): the value formatted is x
                 ctx.check(times == ['self.timestamp'], 'C16.4', 'show:prints-timestamp', f_mshow.loc(e.node), 'the time column is the message\'s relative timestamp',
                           'the time column formats %s' % times)
     ctx.floor('C16.4', n4, 1, 'output call in Message.show')
